@@ -1655,7 +1655,14 @@ impl Database {
                 let plan_has_window = has_window(physical_plan.root);
                 let plan_has_ordering = has_ordering(physical_plan.root);
                 let plan_has_non_simple_root = has_non_simple_root(physical_plan.root);
-                let needs_all_columns = plan_has_filter
+                // Pushing the projection into the scan makes the source yield only the selected
+                // columns (re-indexed from 0), but the executor's Project still resolves column
+                // references against the full table definition, so `SELECT b FROM t` read the
+                // wrong slot (NULL or a neighbouring column). Until Project is built with the
+                // narrowed column map, always scan all columns.
+                let projection_pushdown_is_sound = false;
+                let needs_all_columns = !projection_pushdown_is_sound
+                    || plan_has_filter
                     || plan_has_aggregate
                     || plan_has_window
                     || plan_has_ordering
